@@ -64,6 +64,7 @@ pub struct Ctx {
     pub extra: Mutex<BTreeMap<String, Value>>,
     pub regressions_replayed: AtomicU64,
     pub harness_faults: Mutex<Vec<String>>,
+    pub timeouts: AtomicU64,
 }
 
 pub const MAX_VIOLATIONS: usize = 8;
@@ -81,6 +82,7 @@ impl Ctx {
             notes: Mutex::new(vec![]), rule: Mutex::new(String::new()),
             extra: Mutex::new(BTreeMap::new()), regressions_replayed: AtomicU64::new(0),
             harness_faults: Mutex::new(vec![]),
+            timeouts: AtomicU64::new(0),
         }
     }
 
@@ -172,6 +174,13 @@ impl Ctx {
     }
 
     pub fn record(&self, case: Case, reason: String) {
+        if reason.starts_with("no termination") || reason.contains("Timeout") {
+            // Every further non-terminating case costs a full time limit:
+            // two of them are enough.
+            if self.timeouts.fetch_add(1, Ordering::Relaxed) >= 1 {
+                self.stop.store(true, Ordering::Relaxed);
+            }
+        }
         let sig = format!("{}|{}|{}", case.kind, normalise_reason(&reason), String::from_utf8_lossy(&case.srcs[0]));
         let mut v = self.violations.lock().unwrap();
         // De-duplicate by kind + normalised reason: one root cause, one line.
@@ -210,7 +219,8 @@ impl Ctx {
             let config = Config{
                 cases: per as u32,
                 failure_persistence: None,
-                max_shrink_iters: 400,
+                max_shrink_iters: 300,
+                max_shrink_time: 30_000,
                 max_global_rejects: u32::MAX,
                 max_local_rejects: u32::MAX,
                 ..Config::default()
@@ -243,6 +253,12 @@ impl Ctx {
                         Ok(())
                     },
                     Verdict::Fail(r) => {
+                        if r.starts_with("no termination") || r.contains("Timeout") {
+                            // Shrinking a hang costs the time limit per
+                            // attempt: report it as found.
+                            self.record(case, r);
+                            return Ok(());
+                        }
                         failed.store(true, Ordering::Relaxed);
                         Err(TestCaseError::fail(r))
                     },
